@@ -75,6 +75,11 @@ def enumerated():
     C.append(dict(mk("target-dir-name-non-ascii", ["{proj}"] + CM + out, 0, "completed", report=True), target_name="proj_\u00e9\u2713".encode("utf-8")))
     C.append(dict(mk("changed-file-name-not-utf8", ["{proj}"] + CM + out, 2, "unwritable-output"), extra_file=b"m_\xff.py"))
     C.append(dict(mk("changed-file-name-non-ascii", ["{proj}"] + CM + out, 0, "completed", report=True), extra_file="m_\u00e9.py".encode("utf-8")))
+    # every failure class again under the options that change what the run does on its way there (logging level / format, dry run, worker count): the status is the same
+    for vlab, va in [x for x in VALID if x[0] in ("verbose", "log-json", "dry", "workers")]:
+        for lab, a in MISSING: C.append(mk(lab + "+" + vlab, ["{proj}"] + va + a + out, 1, "missing-or-duplicate-result-file", report=False))
+        for lab, p in UNWRITABLE[:2]: C.append(mk(lab + "+" + vlab, ["{proj}"] + CM + va + ["--output", p], 2, "unwritable-output", outpath=p))
+        C.append(mk("missing-dir+" + vlab, ["{dir}/nope"] + CM + va + out, 1, "missing-directory", report=False))
     # precedence
     C.append(mk("prec-bad-flag+missing-dir", ["{dir}/nope", "--bogus"], 3, "argument-error"))
     C.append(mk("prec-missing-dir+missing-sarif", ["{dir}/nope", "--sarif", "{dir}/missing.sarif"] + out, 1, "missing-directory", report=False))
